@@ -57,6 +57,43 @@ CHECKS = {
    "Struct palettes (exported, unexported, embedded, tagged, case-twin, pointer fields): every subset of names x {S,*S}, '*' x prevented subsets, FieldsOf every subset x parent form x parent source x consumer form, same- and cross-package; executed with reflective dumps: named fields carry their source's identity, others zero, fresh address per call, pointer-to-field aliases the field; unknown, case-different and prevented names must be rejected.",
    "reflection reads unexported fields; promoted (embedded-through) names are not claimed",
    "runtime monitoring: reflective state dumps checked against the Spec"),
+
+ "C10": ("exploration", "6 C10",
+   "Generated well-formed programs are rendered in six variants that keep providers and injectors but regroup them (flat, random/deep nesting, sets relocated to other packages) and permute every argument list; every variant must be accepted, satisfy the wiring oracle, and have the same producer-labelled wiring as the base variant; plus false-conflict probes (both forms of one struct / field provider consumed, items used only through bindings).",
+   "variants are produced by re-running the generator with the same node stream and a different layout stream, so they are the same program by construction",
+   "runtime monitoring: metamorphic variants compared on normalised execution traces"),
+ "C13": ("exploration", "6 C13",
+   "Typed grammar enumeration of value expressions (atoms of every operand kind, wrapped by unary/binary/conversion/composite/index/slice/selector/deref/address-of/type-assertion productions to depth 2-3) placed in the injector's package and in another package's set; must-reject classes (any call incl. named function types, function-typed fields, function literals, converted functions; channel receive; interface-typed wire.Value; non-implementing InterfaceValue; unexported or non-package-scope identifiers) must be refused; all others accepted and, executed, reflect.DeepEqual to the same expression evaluated in its home package, same address for &var forms, same pointer across calls and across injectors sharing the set.",
+   "function values, method values, function literals and builtin calls are a no-claim zone (crash-monitored only)",
+   "runtime monitoring: reference evaluation in the home package compared at run time"),
+ "C14": ("exploration", "6 C14",
+   "Generated programs (error+cleanup providers, values, several packages) are rendered under a neutral naming and under adversarial consistent renamings (err/cleanup/keywords and predeclared names after case-folding/numeric suffixes/unicode/package-like names for types, functions, sets, injectors, packages; blank, missing and universe-named injector parameters; packages declaring err/cleanup themselves); each renaming must compile, pass the wiring, fault and cleanup oracles and have the same producer-labelled wiring as the neutral naming.",
+   "model keys, not Go names, label the trace, so traces of renamed programs are comparable line by line",
+   "runtime monitoring: renaming invariance of execution traces"),
+ "C15": ("exploration", "6 C15",
+   "A corpus of declarations covering every go/ast node kind below a declaration (the check counts the kinds it saw and is inconclusive if one is missing) is composed into injector files under six import-alias schemes; wire_gen.go is parsed back and each declaration must be 1:1, in order, alpha-equivalent to its original with every identifier resolving (go/types on both sides) to the same package-level / universe / imported entity or to a consistently renamed local; both tag sets must build; probe outputs of the copied functions must equal those of the originals (driver built with and without -tags wireinject).",
+   "inner comments are not part of the AST of a declaration and are not compared; only Doc comments are",
+   "runtime monitoring: parse-back structural oracle with go/types + differential execution of originals vs copies"),
+ "C16": ("exploration", "6 C16",
+   "Programs with large internal tables (several packages sharing a package name, many values incl. equal type names in different packages, four injectors over two files, blank imports, copied declarations) are generated repeatedly in fresh processes, from two checkout roots, under four invocation forms, together with other packages, and in module / GOPATH / GOPATH+vendor layouts; every wire_gen.go must be byte-identical and free of scratch paths, host name and dates. The thorough tier adds a -race build of wire (a race in wire's own frames would be reported).",
+   "Go randomises map iteration per process and per loop, so repeated fresh processes are the source of schedule diversity; the race detector is an auxiliary sanitizer only",
+   "runtime monitoring: differential byte comparison across processes, locations and layouts (+ race detector)"),
+ "C17": ("exploration", "6 C17",
+   "Invocation scenarios mixing packages that succeed / fail analysis / have no injectors x prior output (absent, identical, stale, garbage with the constraint, directory squatting on the output name = deterministic write fault) x options (-header_file usable/unusable, -output_file_prefix, -tags, default-command forms) x command (gen, diff, check, show); a sequential reference model of one invocation decides exit status and the allowed file-system footprint, observed through a path/mode/SHA-256 snapshot of the whole module tree before and after; reference content comes from solo runs in pristine copies.",
+   "packages that fail to load (type errors) are outside the scenario space; write faults are injected by a directory squatting on the output path rather than strace (per-thread counters are not reproducible under the Go scheduler)",
+   "runtime monitoring: file-tree snapshots and exit codes against a sequential model, with a deterministic write fault"),
+ "C18": ("exploration", "6 C18",
+   "Seeded histories over {switch sources to one of four variants, gen, diff, check, delete output, damage output (stale / non-compiling / truncated after the package clause / garbage after the package clause)} are replayed step by step against a sequential model (state = current variant + file bytes): after every successful gen the file equals the fresh-checkout output, a second gen changes nothing, diff right after exits 0, a failed gen leaves the file untouched, diff/check never touch the tree.",
+   "damage classes are restricted to those the go tool tolerates independent of file age (a file without package clause is refused by cmd/go's package index once older than 2 s)",
+   "runtime monitoring: sequential history replay against a reference model"),
+ "C19": ("exploration", "6 C19",
+   "Accepted programs and rejected programs of every class (conflict, missing, cycle, unused, signature, duplicate parameter, binding, injector lacking error/cleanup at depth 1-3, inaccessible value, malformed unreferenced set variable) run through gen and check on the same tree: check must report exactly when gen fails or a set variable is malformed, with the same error classes. show: parsed stdout must equal the model for every top-level set (transitively included named sets, each provided type in exactly one group headed by exactly the types needed from outside, injector list).",
+   "error classes are recognised by the message fragments the properties themselves name",
+   "runtime monitoring: differential gen/check observation + parsed show output against the reference model"),
+ "C20": ("exploration", "6 C20",
+   "Enumerated form space: every argument slot of the marker functions x the expression forms that type-check there x context (direct, set variable, nested inline), injector declaration forms, how wire is imported (alias, dot), every Go type kind as injector result with failing providers; each alone in a package under gen and check; oracle: no panic / fatal error, a rejection carries a positioned diagnostic, no silent exit for documented spellings. Thorough repeats the space under a -race build.",
+   "forms that do not type-check are dropped by a precheck (go build -tags wireinject); one defect is recorded as a known finding because its message is pinned by a golden file",
+   "runtime monitoring: crash/diagnostic monitor over an enumerated input space"),
 }
 
 PENDING = {
